@@ -17,6 +17,9 @@ static const char *const PROGS[] = {
 	// group_async
 	"g | W", "g | n", "g g | W", "g | n | W", "g n | g", "g W | g", "g | T", "G | W", "G | n", "g | G | W",
 	"g n W", "1; g | l | W", "1; g n | l",
+	// re-entry inside the last leaver's window (three threads): a waiter / notifier of the NEW generation must not be forgotten
+	"1; l | E L | W", "1; l | E L | T", "1; W | l | E L", "2; l l | E L | W",
+	"1; n l | E L | W",
 	0
 };
 
